@@ -84,13 +84,27 @@ class Gates(object):
                 e.ops[0], ast.GtE):
             t = self.const_tuple(f, e.comparators[0])
             if t is not None and len(t) == 2 and self._is_version_expr(
-                    e.left):
+                    e.left, f):
                 return Gate(f, e, t, 'ge')
         return None
 
-    @staticmethod
-    def _is_version_expr(e):
-        return isinstance(e, ast.Name) and 'version' in e.id
+    def _is_version_expr(self, e, f=None):
+        """A name holding the request microversion: by naming convention
+        (parameters) or because every definition reads the microversion
+        environ key."""
+        if not isinstance(e, ast.Name):
+            return False
+        if 'version' in e.id:
+            return True
+        if f is None:
+            return False
+        defs = [n for n in own_nodes(f.node) if isinstance(n, ast.Assign)
+                and any(isinstance(t, ast.Name) and t.id == e.id
+                        for t in n.targets)]
+        return bool(defs) and all(
+            isinstance(d.value, ast.Subscript) and
+            'MICROVERSION_ENVIRON' in ast.unparse(d.value.slice)
+            for d in defs)
 
     def gates_in(self, f):
         if f in self._gates:
